@@ -794,6 +794,19 @@ verdict_t check_mcase(const mcase_t& c, ctx_t& ctx)
             ctx.label("tboost-probe-survived");
         }
     }
+    // the forked child never returns into the test loop, whichever way it leaves this function (return or exception)
+    struct child_guard_t
+    {
+        const bool& m_in_child;
+
+        ~child_guard_t()
+        {
+            if (m_in_child)
+            {
+                ::_exit(0);
+            }
+        }
+    } const child_guard{in_child};
     const auto leave = [&](verdict_t v)
     {
         if (in_child)
